@@ -52,4 +52,22 @@ theorem Stack_transparent (x pad rest : Bytes) (fcs : Bool) (u tu : UDP) (i ti :
     rw [UDP_unpack_packed _ tu hwu]
     simp
 
+/-- all hypotheses of `Stack_transparent` hold together of a non-trivial stack: a 5-byte innermost payload,
+    3 bytes of link padding, a VLAN-tagged frame, non-default addresses, ports and time stamp -/
+example :
+    let x : Bytes := [0xDE, 0xAD, 0xBE, 0xEF, 0x00]
+    let pad : Bytes := [0, 0, 0]
+    let u : UDP := { UDP.fresh with srcport := 4400, dstport := 5500 }
+    let i : IP := { IP.fresh with srcip := some 0xC0A81C10, dstip := some 0xEB000001, flags := 2, ident := 7 }
+    let e : Eth := { Eth.fresh with dstmac := 0x01005E000001, srcmac := 0x000C4D000A6C, vlan := true, vlantag := 5 }
+    let r : Rec := { Rec.fresh with sec := 0x5F000000, usec := 999999 }
+    x.length ≤ 65507 ∧ pad.length ≤ 46 ∧ (u.srcport < 65536 ∧ u.dstport < 65536) ∧
+    IP_WF { i with payload := [] } 0xC0A81C10 0xEB000001 ∧ Eth_WF e ∧ (r.sec < 2 ^ 32 ∧ r.usec < 2 ^ 32) := by
+  simp [IP_WF, Eth_WF, IP.fresh, Eth.fresh, IP_PROTOCOL_UDP, IP_DEFAULT_TTL, ETH_TYPE_IP, ETH_TYPE_VLAN]
+
+/-- the bound 65507 is the largest the formats allow: one more byte and `IP.pack` cannot express the total
+    length (20 + 8 + 65508 = 65536 does not fit 16 bits) — `IP_WF` fails for that payload length -/
+example (i : IP) (src dst : Nat) (ub : Bytes) (h : ub.length = 8 + 65508) : ¬ IP_WF { i with payload := ub } src dst := by
+  intro hw; have := hw.2.2.2.2.2.2.2.2.2.2.2; simp only [h] at this; omega
+
 end Acra.Props.C02
